@@ -273,6 +273,7 @@ func runC20(w *World, r *Report) {
 	// ---- R-C20-6: Admin implies Authenticated
 	c20AdminStores(w, r)
 	c20PermissionsAccumulate(w, r)
+	c20FederatedIdentity(w, r)
 
 	// ---- R-C20-4 route table
 	routes := extractRoutes(w)
